@@ -353,6 +353,33 @@ def _quantifier_loops(stmts):
     return out
 
 
+def _inplace_maps(stmts):
+    """N46: `for i, x in enumerate(S): S[i] = F(x)` (nothing else in the loop; F(x) mentions neither i nor S)  ->  `S = [F(x) for x in S]`:
+    position i is read before it is written and never again, so every element is replaced by F of its old value, in order."""
+    out = []
+    for st in stmts:
+        if isinstance(st, ast.For) and not st.orelse and len(st.body) == 1 and isinstance(st.target, ast.Tuple) and len(st.target.elts) == 2 \
+                and all(isinstance(t, ast.Name) for t in st.target.elts) and isinstance(st.iter, ast.Call) and isinstance(st.iter.func, ast.Name) \
+                and st.iter.func.id == "enumerate" and len(st.iter.args) == 1 and not st.iter.keywords and _side_effect_free(st.iter.args[0]) \
+                and isinstance(st.body[0], ast.Assign) and len(st.body[0].targets) == 1 and isinstance(st.body[0].targets[0], ast.Subscript):
+            i, x = st.target.elts[0].id, st.target.elts[1].id
+            S = st.iter.args[0]
+            tgt, val = st.body[0].targets[0], st.body[0].value
+            names = {n.id for n in ast.walk(val) if isinstance(n, ast.Name)}
+            s_txt = ast.unparse(S)
+            if ast.unparse(tgt.value) == s_txt and isinstance(tgt.slice, ast.Name) and tgt.slice.id == i and i not in names and i != x \
+                    and s_txt not in ast.unparse(val):
+                comp = ast.ListComp(elt=val, generators=[ast.comprehension(target=ast.Name(id=x, ctx=ast.Store()), iter=copy.deepcopy(S), ifs=[], is_async=0)])
+                tg = copy.deepcopy(S)
+                tg.ctx = ast.Store()
+                new = ast.copy_location(ast.Assign(targets=[tg], value=comp, type_comment=None), st)
+                ast.fix_missing_locations(new)
+                out.append(new)
+                continue
+        out.append(st)
+    return out
+
+
 def _genexp_loops(stmts, root=None):
     """N44: a generator expression consumed by one `for`, written in the loop's head or bound by the statement just before it and used nowhere else,
 
@@ -2003,7 +2030,7 @@ class Normalizer:
                            or (isinstance(n, ast.Name) and n.id == nm and isinstance(n.ctx, (ast.Store, ast.Del))) for n in ast.walk(st)):
                         del self._closures[nm]
         self._closures = saved
-        return _unpack_fields(_counted_list_loops(_quantifier_loops(_genexp_loops(out, state.get("root")))))
+        return _unpack_fields(_counted_list_loops(_quantifier_loops(_genexp_loops(_inplace_maps(out), state.get("root")))))
 
     def _closure_only_called(self, fd, state):
         root = state.get("root")
